@@ -260,8 +260,18 @@ def run_assign(chk, spec):
 	else:
 		key = 0
 		vals = vals[0] if vals else ok_val()
+	if spec.get("as") == "vector" and isinstance(vals, list):
+		# the values arrive as a typed vector of their own (its schema is not a licence to skip looking at them)
+		import warnings
+		with warnings.catch_warnings():
+			warnings.simplefilter("ignore")
+			made = call(Vector, list(vals))
+		if made.ok:
+			vals = made.value
+	elif spec.get("as") == "tuple" and isinstance(vals, list):
+		vals = tuple(vals)
 	o = call(v.__setitem__, key, vals)
-	chk.judged("weak-point", ("assign", kind, form, tuple(sp for _, sp in spec["specials"]), spec["nullable"], o.ok))
+	chk.judged("weak-point", ("assign", kind, form, tuple(sp for _, sp in spec["specials"]), spec["nullable"], o.ok, spec.get("as")))
 	chk.observe(v, "setitem-" + ("ok" if o.ok else "failed"))
 
 
@@ -418,6 +428,14 @@ def run(chk):
 						if not chk.mine(idx):
 							continue
 						chk.case("assign", {"kind": kind, "form": form, "nullable": nullable, "specials": specials, "n": rng.choice([3, 4, 5]), "m": 3, "seed": rng.randrange(10**9)}, "weak-assign")
+	for kind in ("bool", "int", "float", "date"):
+		for form in ("slice", "idxlist", "idxvec", "mask"):
+			for nullable in (False, True):
+				for specials in ([(0, "promote"), (1, "promote"), (2, "promote")], [(0, "narrower"), (1, "narrower"), (2, "narrower")], [(0, "promote"), (1, "none"), (2, "promote")], [], [(0, "none"), (1, "none"), (2, "none")]):
+					for how in ("vector", "tuple"):
+						idx += 1
+						if chk.mine(idx):
+							chk.case("assign", {"kind": kind, "form": form, "nullable": nullable, "specials": specials, "n": rng.choice([3, 4]), "m": 3, "seed": rng.randrange(10**9), "as": how}, "weak-assign-typed-value")
 	for kind in ("int", "float", "str", "date", "bool"):
 		for writes in (["none"], ["wider"], ["same", "none"], ["none", "wider"], ["wider", "none", "same"], ["str"], ["same"]):
 			for n, c in ((1, 2), (3, 2), (2, 3)):
